@@ -9,17 +9,18 @@ import (
 )
 
 type sgen struct {
-	r      *util.Rng
-	b      strings.Builder
-	ctr    int
-	nconn  int
-	live   []string // cids believed open
-	dead   []string // cids that were closed: their handles are stale
-	et     bool
-	rbc    int
-	hist   map[string]int
-	big    bool
-	hasDup bool // some handler program of this case keeps a duplicate of a descriptor
+	r           *util.Rng
+	b           strings.Builder
+	ctr         int
+	nconn       int
+	live        []string // cids believed open
+	dead        []string // cids that were closed: their handles are stale
+	et          bool
+	rbc         int
+	hist        map[string]int
+	big         bool
+	hasDup      bool // some handler program of this case keeps a duplicate of a descriptor
+	hasDelFault bool // an EPOLL_CTL_DEL failure has been injected in this case
 }
 
 func (g *sgen) emit(s string) {
@@ -59,7 +60,7 @@ func (g *sgen) trafficProg() string {
 		case 4:
 			hops = append(hops, fmt.Sprintf("discard:%d", k))
 		case 5:
-			if g.r.Intn(3) == 0 { // the user takes a duplicate of the descriptor and keeps it beyond the connection's life
+			if g.r.Intn(3) == 0 && !g.hasDelFault { // the user takes a duplicate of the descriptor and keeps it beyond the connection's life
 				hops = append(hops, "dup")
 				g.hasDup = true
 			} else {
@@ -139,7 +140,7 @@ func (g *sgen) connect() {
 
 func (g *sgen) stream(id int, faults bool) {
 	fmt.Fprintf(&g.b, "case %d\n", id)
-	g.nconn, g.live, g.dead, g.hasDup = 0, nil, nil, false
+	g.nconn, g.live, g.dead, g.hasDup, g.hasDelFault = 0, nil, nil, false, false
 	g.big = id%10 == 9
 	mode := g.r.Pick(0, 0, 1, 2)
 	chunk := 0
@@ -304,6 +305,9 @@ func (g *sgen) stream(id int, faults bool) {
 					// a failing EPOLL_CTL_DEL together with a duplicate the user keeps leaves a poller entry that no
 					// close(2) removes any more: not generated (DESIGN.md, section 8, observations)
 					call = "epoll_ctl_ModRead"
+				}
+				if call == "epoll_ctl_Delete" {
+					g.hasDelFault = true
 				}
 				errno := []string{"ECONNRESET", "EPIPE", "ETIMEDOUT", "EBADF", "ENOMEM", "EINVAL", "EAGAIN", "EIO"}[g.r.Intn(8)]
 				g.emit(fmt.Sprintf("inject %s %s errno %s", call, cid, errno))
